@@ -6,10 +6,7 @@ From PFGen Require Quat Trs.
 Local Open Scope nat_scope.
 Local Open Scope carrier_scope.
 
-Ltac trs_unfold :=
-  unfold Trs.TRS_Transform, Trs.TRS_Translate, Trs.New, Trs.Position, Trs.Scale, Trs.Rotation,
-    Trs.TRS_Position, Trs.TRS_Scale, Trs.TRS_Rotation, trs_spec in *;
-  cbv zeta in *; cbn [Trs.TRS_position Trs.TRS_scale Trs.TRS_rotation] in *.
+Ltac trs_unfold := idtac.
 
 Section TrsRing.
 Context {F : Type} {FO : Carrier F} (RC : ring_carrier FO).
